@@ -20,16 +20,6 @@ impl vstd::std_specs::cmp::PartialEqSpecImpl for ScriptBuf {
 }
 
 #[verifier::external_body]
-pub struct OutPoint { _p: u8 }
-impl Clone for OutPoint { #[verifier::external_body] fn clone(&self) -> (r: Self) ensures r == *self { unimplemented!() } }
-impl Copy for OutPoint {}
-impl PartialEq for OutPoint { #[verifier::external_body] fn eq(&self, other: &Self) -> (r: bool) { unimplemented!() } }
-impl vstd::std_specs::cmp::PartialEqSpecImpl for OutPoint {
-    open spec fn obeys_eq_spec() -> bool { true }
-    open spec fn eq_spec(&self, other: &Self) -> bool { *self == *other }
-}
-
-#[verifier::external_body]
 pub struct Txid { _p: u8 }
 impl Clone for Txid { #[verifier::external_body] fn clone(&self) -> (r: Self) ensures r == *self { unimplemented!() } }
 impl Copy for Txid {}
@@ -166,4 +156,13 @@ impl vstd::std_specs::cmp::PartialEqSpecImpl for ChannelId {
     open spec fn eq_spec(&self, other: &Self) -> bool { *self == *other }
 }
 
+// bitcoin::OutPoint { pub txid, pub vout }
+pub struct OutPoint { pub txid: Txid, pub vout: u32 }
+impl Clone for OutPoint { #[verifier::external_body] fn clone(&self) -> (r: Self) ensures r == *self { unimplemented!() } }
+impl Copy for OutPoint {}
+impl PartialEq for OutPoint { #[verifier::external_body] fn eq(&self, other: &Self) -> (r: bool) { unimplemented!() } }
+impl vstd::std_specs::cmp::PartialEqSpecImpl for OutPoint {
+    open spec fn obeys_eq_spec() -> bool { true }
+    open spec fn eq_spec(&self, other: &Self) -> bool { *self == *other }
+}
 } // verus!
